@@ -21,6 +21,8 @@
    expected result; the harness replays each on the real classes.        *)
 EXTENDS Integers, Sequences, FiniteSets, SequencesExt, FiniteSetsExt, Json, IOUtils, TLC
 
+VARIABLE cur      \* the case under examination (one TLC state per case)
+
 CONSTANTS NRows,       \* rows of the initial object (ids 1..NRows)
           Classes,     \* subset of {"Base", "Samples", "SMC"}
           Namespaces,  \* subset of {"numpy", "torch", "jax"}
@@ -110,20 +112,19 @@ Cases == Cases1 \cup Cases2
 
 (* ---- laws of the reference itself ------------------------------------ *)
 \* selection never invents rows and keeps the field set, class, namespace and width
-SelectSound == \A c \in Cases : \A k \in 1..Len(c.final.rows) : c.final.rows[k] \in 1..NRows
-MetaKept == \A c \in Cases :
+SelectSound == \A c \in {cur} : \A k \in 1..Len(c.final.rows) : c.final.rows[k] \in 1..NRows
+MetaKept == \A c \in {cur} :
                /\ c.final.cls = c.init.cls /\ c.final.fields = c.init.fields
                /\ (Mode = "algebra" => (c.final.ns = c.init.ns /\ c.final.width = c.init.width))
-IdentityOps == \A c \in Cases :
+IdentityOps == \A c \in {cur} :
                  (\A k \in 1..Len(c.ops) : c.ops[k].op \in {"pickle", "dict", "partconcat", "to_namespace", "to_numpy", "from_samples"})
                     => c.final.rows = c.init.rows
 
-ASSUME SelectSound /\ MetaKept /\ IdentityOps
 ASSUME PrintT(<<"NCASES", Cardinality(Cases)>>)
 ASSUME JsonSerialize(IOEnv.OUT_FILE, SetToSeq(Cases))
 
-VARIABLE dummy
-Init == dummy = 0
-Next == UNCHANGED dummy
-Spec == Init /\ [][Next]_dummy
+\* one TLC state per case: the laws are state invariants evaluated on every case
+Init == cur \in Cases
+Next == UNCHANGED cur
+Spec == Init /\ [][Next]_cur
 =============================================================================
